@@ -11,7 +11,7 @@
    increasing ranges, and its (Kmin,Kmax) are its first kid's Kmin / last kid's Kmax.
    Inv covers trees of ANY shape (wide nodes, long leaves, single-kid chains), not only pdfcpu's. *)
 From Coq Require Import List NArith.
-From PV Require Import C39.Model C39.ProofsOrder C39.Proofs C39.ProofsRemove C39.ProofsHistory.
+From PV Require Import C39.Model C39.ProofsOrder C39.Proofs C39.ProofsRemove C39.ProofsHistory C39.ProofsBounded.
 Import ListNotations.
 
 (* Add (m == nil, or the key is not in m): invariant kept, contents = sorted-map insert that keeps
@@ -88,6 +88,23 @@ Theorem C39_rename_loop_terminates : forall rn ns k v, ins_unique (S (length ns)
 Proof. exact ins_unique_never_out_of_fuel. Qed.
 Print Assumptions C39_rename_loop_terminates.
 
+(* pdfcpu's own shape bound (what the code guarantees for trees it grows itself: a leaf holds at most
+   maxEntries = 3 names, an intermediate node has exactly 2 kids) is kept by Add and Remove; Remove
+   reports empty only with the canonical empty root Leaf [] "" "". Foreign trees are not re-balanced. *)
+Theorem C39_shape_bound : forall t k v, bounded t ->
+  bounded (tadd false t k v) /\ (forall t' e ok, wf t -> tremove t k = R t' e ok -> bounded t' /\ (e = true -> t' = empty_tree)).
+Proof. intros t k v Hb. split; [apply add_bounded; exact Hb|]. intros t' e ok Hw E. exact (remove_bounded t k t' e ok Hw Hb E). Qed.
+Print Assumptions C39_shape_bound.
+
+(* Histories from the empty tree, total version: if rename-mode Adds use fresh keys and Remove("") is
+   never applied while the map is empty (safe0; exactly the two refuted cases), NO step panics, the tree
+   stays well-formed and within the shape bound, equals the specification's sorted list, is sorted and
+   every lookup agrees with the map. *)
+Theorem C39_history_from_empty_partial : forall ops, safe0 [] ops ->
+  exists t, run ops empty_tree = Some t /\ Inv0 t /\ entries t = spec_run ops [] /\ lsorted (keys t) /\ (forall k, tvalue t k = m_lookup k (spec_run ops [])).
+Proof. exact history_from_empty. Qed.
+Print Assumptions C39_history_from_empty_partial.
+
 (* non-vacuity: a multi-level tree built by the model satisfies wf; a history with all kinds of
    steps satisfies the hypotheses of C39_history_partial *)
 Definition nv_ops : list op :=
@@ -96,9 +113,10 @@ Definition nv_ops : list op :=
 Example C39_nonvacuous :
   (exists t, run nv_ops empty_tree = Some t /\ keys t = [[]; kC; [100%N]; [101%N]]
              /\ exists kids a b, t = Inner kids a b)
-  /\ rn_fresh (entries empty_tree) nv_ops /\ Inv empty_tree.
+  /\ rn_fresh (entries empty_tree) nv_ops /\ Inv empty_tree /\ safe0 [] nv_ops.
 Proof.
-  split; [|split; [|exact inv_empty]].
+  split; [|split; [|split; [exact inv_empty|]]].
   - eexists. split; [vm_compute; reflexivity|]. split; [reflexivity|]. do 3 eexists. reflexivity.
   - cbn. repeat split; reflexivity.
+  - cbn. repeat split; try reflexivity; try discriminate; intros; discriminate.
 Qed.
